@@ -1,6 +1,6 @@
 (* Extraction for the "c16" driver (C16 plotting).  ExtrOcamlBasic only; nat, positive, Z, Q
    stay the extracted inductive types. *)
-From Koala Require Import Model.Clip Model.Plot.
+From Koala Require Import Model.Clip Model.Plot Model.Lattice Model.Dual Model.PlotGlue.
 From Coq Require Import QArith.
 Require Extraction.
 Require Import ExtrOcamlBasic.
@@ -10,4 +10,6 @@ Extraction "model.ml"
   mkPlat mkPlaq subset_indices broadcast_args process_plot_args colours
   plot_vertices plot_edges arrow_of plaq_points plaq_polygons plot_plaquettes
   visible lines_cross_unit_cell line_fully_in_unit_cell
-  line_intersection segments_meet_exact.
+  line_intersection segments_meet_exact
+  mkLattice resolve_scheme process_plot_args_c plot_vertices_c plot_edges_c plot_plaquettes_c final_colour
+  plot_vertices_default plot_edges_default plot_plaquettes_default make_dual plat_of_dual plot_dual.
